@@ -34,7 +34,7 @@ fn ops_basic() -> Ops {
 }
 
 fn ops_subs() -> Ops {
-    Ops { write: true, observe: true, drop_obs: true, disallow: true, subscribe: true, unsubscribe: true, state_unsubscribe: true, ..Ops::default() }
+    Ops { write: true, observe: true, drop_obs: true, disallow: true, subscribe: true, unsubscribe: true, state_unsubscribe: true, arm_handler_subscribe: true, ..Ops::default() }
 }
 
 fn wp(name: &str, specs: Vec<Spec>, observable: Vec<usize>, pinned: Vec<usize>, max_obs: usize, len: usize, ops: Ops, mon: Monitors) -> Box<dyn Scenario> {
@@ -140,7 +140,7 @@ pub fn scenarios(prop: &str, tier: Tier) -> Vec<Box<dyn Scenario>> {
     match prop {
         "C01" => graph_templates_x("C01", if q { 6 } else { 8 }, if q { 2 } else { 1 }, ops_basic(), Monitors { c01: true, ..Monitors::default() }),
         "C02" => graph_templates("C02", if q { 6 } else { 8 }, ops_basic(), Monitors { c02: true, ..Monitors::default() }),
-        "C05" => graph_templates("C05", if q { 6 } else { 8 }, ops_basic(), Monitors { c05: true, ..Monitors::default() }),
+        "C05" => graph_templates("C05", if q { 6 } else { 8 }, Ops { drop_handle: true, ..ops_basic() }, Monitors { c05: true, ..Monitors::default() }),
         "C07" => graph_templates("C07", if q { 6 } else { 7 }, ops_basic(), Monitors { c07: true, c01: true, ..Monitors::default() }),
         "C03" => {
             let ops = Ops { write: true, observe: true, observe_smuggled: true, drop_obs: true, subscribe: true, subscribe_smuggled_only: true, ..Ops::default() };
@@ -150,7 +150,7 @@ pub fn scenarios(prop: &str, tier: Tier) -> Vec<Box<dyn Scenario>> {
             use Spec::*;
             let l = if q { 5 } else { 7 };
             let mon = Monitors { c04: true, ..Monitors::default() };
-            let ops = Ops { write: true, observe: true, drop_obs: true, disallow: true, subscribe: true, unsubscribe: true, drop_handle: true, ..Ops::default() };
+            let ops = Ops { write: true, observe: true, drop_obs: true, disallow: true, subscribe: true, unsubscribe: true, drop_handle: true, arm_handler_subscribe: true, ..Ops::default() };
             let mut v = graph_templates("C04", l, ops.clone(), mon.clone());
             let bops = Ops { write: true, observe: true, observe_smuggled: true, drop_obs: true, disallow: true, drop_handle: true, ..Ops::default() };
             v.extend(bind_templates("C04b", l, bops.clone(), mon.clone()));
@@ -277,7 +277,7 @@ pub fn scenarios(prop: &str, tier: Tier) -> Vec<Box<dyn Scenario>> {
             ]
         }
         "C11" => {
-            let mut v = graph_templates("C11", if q { 5 } else { 7 }, ops_subs(), Monitors { c11: true, ..Monitors::default() });
+            let mut v = graph_templates("C11", if q { 5 } else { 7 }, Ops { drop_handle: true, ..ops_subs() }, Monitors { c11: true, ..Monitors::default() });
             v.extend(bind_templates("C11b", if q { 5 } else { 7 }, Ops { write: true, observe: true, observe_smuggled: true, drop_obs: true, disallow: true, ..Ops::default() }, Monitors { c11: true, ..Monitors::default() }));
             v
         }
